@@ -104,7 +104,7 @@ theorem clientDecode_eq (c : Codec) (d : Bytes) :
     obtain ⟨b, hb, _⟩ := u32At_of_le (d := d) (pos := 4) (by omega)
     obtain ⟨e, he, _⟩ := u32At_of_le (d := d) (pos := 8) (by omega)
     simp only [ha, hb, he, decide_eq_true_eq]
-    by_cases hh : b > 0 ∧ b < 256 ∧ 12 + b + e ≤ a
+    by_cases hh : b > 0 ∧ 12 + b + e ≤ a
     · rw [if_pos hh, if_pos hh]
       cases unmarshalWithMeta c d <;> rfl
     · rw [if_neg hh, if_neg hh]
@@ -233,10 +233,10 @@ theorem clientTriesMeta_legacyFrame {name payload : Bytes} {a : UInt8} {name' : 
     simp only [r0, r4, hx, decide_eq_false_iff_not]
     omega
 
-/-- on a metadata-format frame the heuristic tries the metadata format iff `0 < nameLen < 256` -/
+/-- on a metadata-format frame the heuristic tries the metadata format iff `0 < nameLen` -/
 theorem clientTriesMeta_metaFrame (name payload mb : Bytes)
     (htot : 12 + name.length + mb.length + payload.length < 2 ^ 32) :
-    clientTriesMeta (metaFrame name payload mb) = decide (0 < name.length ∧ name.length < 256) := by
+    clientTriesMeta (metaFrame name payload mb) = decide (0 < name.length) := by
   have hlen := metaFrame_length name payload mb
   have r0 : u32At (metaFrame name payload mb) 0 = .ok (4 + 4 + name.length + 4 + mb.length + payload.length) :=
     u32At_of_eq (a := []) (rest := be32 name.length ++ (be32 mb.length ++ (name ++ (mb ++ payload))))
